@@ -95,5 +95,36 @@ theorem seekTS_absent (hP : entryLimit ≤ P.maxEntry) (ctx : SeekCtx tsOf lines
     unfold seekTS
     simp only [hsz, if_false, hloop]
 
+/-- What the code does with a stored timestamp of exactly 0 ns (1970-01-01T00:00:00Z,
+or any record whose timestamp `readQLogTimestamp` cannot read): when the first
+probe (the middle of the file) falls into such a record, `seekTS` fails with the
+generic "record … has empty timestamp" error for EVERY target — including the
+target 0 itself, because `ts == 0` is tested before `ts == timestamp` — and the
+position is untouched. -/
+theorem seekTS_zero_stamp (hP : entryLimit ≤ P.maxEntry) (A B : List Bytes) (x : Bytes)
+    (hl : lines = A ++ x :: B) (hx : lineOK x = true) (hz : tsOf x = 0)
+    (h1 : (render A).length ≤ (render lines).length / 2)
+    (h2 : (render lines).length / 2 ≤ (render A).length + x.length) (q : QState) :
+    seekTS P (fileOfLines lines) tsOf q target = ({ q with hasBuf := false }, .error .emptyTS) := by
+  obtain ⟨_, hnl, hxlen⟩ := (lineOK_iff x).1 hx
+  have hLA := lineAt_split A B x hnl
+  rw [← hl] at hLA
+  have hslice := slice_line A B x
+  rw [← hl] at hslice
+  have hsz : (fileOfLines lines).size = (render lines).length := rfl
+  have hlt := hLA.lt
+  have hne : (fileOfLines lines).size ≠ 0 := by omega
+  have hprobe := readProbeLine_line P (fileOfLines lines) _ _ (((fileOfLines lines).size - 0) / 2) hLA
+    (by omega) (by rw [hsz]; simpa using h1) (by rw [hsz]; simpa using h2)
+  have hval : validateIdx (render A).length none (fileOfLines lines).size = none := by
+    unfold validateIdx
+    have : ¬ ((render A).length = (fileOfLines lines).size) := by omega
+    simp [this]
+  unfold seekTS
+  simp only [hne, if_false]
+  have : maxDepth = 99 + 1 := rfl
+  rw [this, seekLoop, hprobe]
+  simp only [hval, hslice, hz, if_true]
+
 end
 end AGH.C20
